@@ -44,8 +44,8 @@ theorem allocatePrepared_post (hc : CfgOK cfg) {s : State} (h : GeomInv cfg s) (
       rw [hw.align_pos_eq hc hm (by omega : rstart + size ≤ c.contentEnd cfg)] at h3'
       cases h3'
       have hmem := hw.alignPos_mem hc hm (by omega : c.contentStart cfg ≤ rstart + size) (by omega)
-      obtain ⟨q1, _, q3, q4, _⟩ := hg.setCurPos_inv h hcur hi hmem.1 hmem.2 (alignPos_dvd _ _ _)
-      exact ⟨q1, fun x hx => hr x (by rw [q4] at hx; exact hx), q3⟩
+      obtain ⟨q1, q2', q3, q4, _⟩ := hg.setCurPos_inv h hcur hi hmem.1 hmem.2 (alignPos_dvd _ _ _)
+      exact ⟨q1, fun x hx => hr x (by rw [q4] at hx; exact hx), q3, Trace.of_shape q2' q4⟩
     · cases h2'
   · rename_i hup
     obtain ⟨dst, h1, he⟩ := bind_eq_ok he
@@ -66,8 +66,8 @@ theorem allocatePrepared_post (hc : CfgOK cfg) {s : State} (h : GeomInv cfg s) (
       rw [hw.align_pos_eq hc hm (by omega : rend - size ≤ c.contentEnd cfg)] at h3'
       cases h3'
       have hmem := hw.alignPos_mem hc hm (by omega : c.contentStart cfg ≤ rend - size) (by omega)
-      obtain ⟨q1, _, q3, q4, _⟩ := hg.setCurPos_inv h hcur hi hmem.1 hmem.2 (alignPos_dvd _ _ _)
-      exact ⟨q1, fun x hx => hr x (by rw [q4] at hx; exact hx), q3⟩
+      obtain ⟨q1, q2', q3, q4, _⟩ := hg.setCurPos_inv h hcur hi hmem.1 hmem.2 (alignPos_dvd _ _ _)
+      exact ⟨q1, fun x hx => hr x (by rw [q4] at hx; exact hx), q3, Trace.of_shape q2' q4⟩
     · cases h1'
 
 /-- `set_pos_addr_and_align_from` -/
@@ -75,7 +75,7 @@ theorem setPosAlignFrom_post (hc : CfgOK cfg) {s : State} (h : GeomInv cfg s) {i
     (hcur : s.cur = .chunk i) (hi : s.chunks[i]? = some c) {pos posAlign : Nat} (hp2 : P2 posAlign)
     (h1 : c.contentStart cfg ≤ pos) (h2 : pos ≤ c.contentEnd cfg)
     {s' : State} (he : setPosAlignFrom cfg s pos posAlign = .ok s') :
-    GeomInv cfg s' ∧ s'.minAlign = s.minAlign ∧ s'.resps = s.resps := by
+    GeomInv cfg s' ∧ s'.minAlign = s.minAlign ∧ s'.resps = s.resps ∧ SameShape s s' := by
   have hw := h.chunks i c hi
   have hm := h.minAlign
   unfold setPosAlignFrom at he
@@ -90,7 +90,7 @@ theorem setPosAlignFrom_post (hc : CfgOK cfg) {s : State} (h : GeomInv cfg s) {i
   split at he
   · obtain ⟨p, hp, he⟩ := bind_eq_ok he
     cases he
-    refine ⟨?_, setCurPos_minAlign _ _, setCurPos_resps _ _⟩
+    refine ⟨?_, setCurPos_minAlign _ _, setCurPos_resps _ _, setCurPos_shape _ _⟩
     have hp' := liftM_eq_ok hp
     rw [hw.align_pos_eq hc hm h2] at hp'
     cases hp'
@@ -98,7 +98,7 @@ theorem setPosAlignFrom_post (hc : CfgOK cfg) {s : State} (h : GeomInv cfg s) {i
     exact h.setCurPos hcur hi hmem.1 hmem.2 (alignPos_dvd _ _ _)
   · rename_i hlt
     cases he
-    refine ⟨?_, setCurPos_minAlign _ _, setCurPos_resps _ _⟩
+    refine ⟨?_, setCurPos_minAlign _ _, setCurPos_resps _ _, setCurPos_shape _ _⟩
     exact h.setCurPos hcur hi h1 h2 (Nat.dvd_trans (hm.p2.dvd_of_le hp2 (by omega)) hdvd)
 
 theorem allocatePreparedSlice_post (hc : CfgOK cfg) {s : State} (h : GeomInv cfg s) (hr : RespsOK cfg s)
@@ -117,9 +117,10 @@ theorem allocatePreparedSlice_post (hc : CfgOK cfg) {s : State} (h : GeomInv cfg
       setPosAlignFrom cfg s1 pos ealign = .ok s2 → BasicPost cfg s s2 := by
     intro s1 s2 pos hg p1 p2 hs
     obtain ⟨c1, hi1, hcc⟩ := hg.getElem?' hi
-    obtain ⟨q1, q2, q3⟩ := setPosAlignFrom_post hc (hg.inv h) (hg.cur.trans hcur) hi1 hp2
+    obtain ⟨q1, q2, q3, q4⟩ := setPosAlignFrom_post hc (hg.inv h) (hg.cur.trans hcur) hi1 hp2
       (by rw [geom_contentStart hcc]; exact p1) (by rw [geom_contentEnd hcc]; exact p2) hs
-    exact ⟨q1, fun x hx => hr x (by rw [q3, hg.resps] at hx; exact hx), q2.trans hg.minAlign⟩
+    exact ⟨q1, fun x hx => hr x (by rw [q3, hg.resps] at hx; exact hx), q2.trans hg.minAlign,
+      Trace.of_shape (hg.shape.trans q4) (q3.trans hg.resps)⟩
   cases rev
   · simp only [Bool.false_eq_true, ↓reduceIte, Bool.not_false] at he r1 r2 r3
     split at he
